@@ -5,6 +5,7 @@ points, coq/extraction/drv_client_proc.ml) and the extracted monitors ClientMon.
 implementation's observations.  The harness output is cached per (repository sources, harness source, seed,
 tier) under .build/cpcache so that the three properties share one run."""
 import fcntl
+import glob
 import hashlib
 import json
 import os
@@ -21,13 +22,16 @@ NAMES = {
     1402: "a verifying, strictly extending registration was not stored (or registertower's answer disagrees with the store)",
     1403: "a stored registration receipt does not verify under the tower id",
     1404: "a stored registration does not come from a verifying reply that strictly extends expiry and slots",
-    1405: "a tower answered with a signature of another key and is not flagged (proof + misbehaving) at the next settle point",
+    1405: "a tower answered with a signature of another key and is not flagged (proof + misbehaving) at the next settle point, "
+          "or a tower whose proof is stored is not shown misbehaving (e.g. after a restart)",
     1406: "a request reached a tower after its misbehaviour proof was stored",
     1407: "the plugin stopped answering (crashed or wedged handler)",
     1301: "two retry loops for one tower (duplicate sends of one locator within 200 ms)",
     1302: "requests flood a failing tower (no back-off)",
-    1303: "pending data not delivered / tower not shown reachable within max-retry + auto-retry + slack after recovery",
-    1304: "a tower that keeps failing is not shown unreachable after max-retry + slack",
+    1303: "pending data not delivered / tower not shown reachable within max-retry + auto-retry + slack after recovery "
+          "(also: after an accepted retrytower / a new revocation for a healthy tower left in `subscription error`)",
+    1304: "a tower that keeps failing (down, garbage, or subscription error with a transiently failing renewal) is not shown "
+          "unreachable after max-retry + slack",
     1305: "retrytower accepted / refused against the documented states",
     1306: "a tower is still shown temporary_unreachable (being retried) long after any retry loop must have ended",
 }
@@ -62,11 +66,19 @@ def parse_case(case):
 def pattern_flags(case):
     """op patterns of a scenario that known_findings entries refer to"""
     c = parse_case(case)
-    flags = {"rereg_after_abandon": False, "reg_known_down": False, "reg_down_after_wrongkey": False}
+    flags = {"rereg_after_abandon": False, "reg_known_down": False, "reg_down_after_wrongkey": False, "refused_renewal": False}
     if not c:
         return flags
     up, registered, abandoned, wrongkey = {}, set(), set(), set()
+    suberr, refusing = set(), set()
     for k, a, b in c["steps"]:
+        # a tower that answers `subscription error` and whose renewals are refused for good (bad signature, not extending, foreign user)
+        if k == 2 and b == 3:
+            suberr.add(a)
+        if (k == 2 and b - 100 in (1, 2, 5, 6, 7)) or (k == 1 and b in (1, 2, 5, 6, 7)):
+            refusing.add(a)
+        if suberr & refusing:
+            flags["refused_renewal"] = True
         if k == 3:
             up[a] = (b == 1)
         elif k == 2 and b == 1:
@@ -92,6 +104,8 @@ def classify(fail_line):
         return None
     prop, check, fam, step, t, l, site, case = m.groups()
     key = {"check": int(check), "site": site}
+    if int(check) in (1303, 1304, 1305, 1405):
+        key["detail"] = int(l)      # for these checks the `l` field carries the variant of the check, not a locator
     key.update(pattern_flags(case))
     return {"prop": prop, "check": int(check), "family": int(fam), "step": int(step), "t": int(t), "l": int(l),
             "site": site, "case": case.strip(), "key": key}
@@ -100,7 +114,22 @@ def classify(fail_line):
 def plugin_binary(ctx):
     """watchtower-client built from the CURRENT working tree of the repository (VERIF_REPO or /repo)"""
     repo = os.path.realpath(vlib.REPO)
-    tdir = os.path.join(vlib.BUILD, "target-plugin" if repo == "/repo" else "target-plugin-alt")
+    # one target directory PER source tree: two trees built into one directory produce the same artifact name, and a tree
+    # whose fingerprint is fresh does not get its binary back once the other tree has overwritten it
+    if repo == "/repo":
+        tdir = os.path.join(vlib.BUILD, "target-plugin")
+    else:
+        tdir = os.path.join(vlib.BUILD, "target-plugin-alt-" + hashlib.sha256(repo.encode()).hexdigest()[:8])
+        seed = os.path.join(vlib.BUILD, "target-plugin-alt")
+        with vlib.BuildLock():
+            if not os.path.exists(tdir) and os.path.isdir(seed):
+                # (the dependencies are the same: start from a copy instead of compiling them again)
+                vlib.sh(["cp", "-a", seed, tdir], timeout=600)
+                # ... but never trust the seed for the crates of the tree itself
+                for pat in ("debug/.fingerprint/watchtower-plugin-*", "debug/.fingerprint/teos-common-*", "debug/watchtower-client",
+                            "debug/deps/watchtower_client-*", "debug/deps/libwatchtower_plugin-*", "debug/deps/libteos_common-*"):
+                    for f in glob.glob(os.path.join(tdir, pat)):
+                        shutil.rmtree(f, ignore_errors=True) if os.path.isdir(f) else os.remove(f)
     with vlib.BuildLock():
         rc, out, dt = vlib.sh(["cargo", "build", "--offline", "--locked", "--bin", "watchtower-client", "--target-dir", tdir],
                               cwd=os.path.join(repo, "watchtower-plugin"), timeout=3000)
@@ -113,7 +142,7 @@ def plugin_binary(ctx):
 
 
 def nrand(tier):
-    return int(os.environ.get("CP_NRAND", "1200" if tier == "thorough" else "40"))
+    return int(os.environ.get("CP_NRAND", "1200" if tier == "thorough" else "32"))
 
 
 def harness_run(ctx, plugin, tier, seed=None, extra_tag=""):
@@ -137,7 +166,7 @@ def harness_run(ctx, plugin, tier, seed=None, extra_tag=""):
             scratch = os.path.join(ctx.work, "scratch-" + key)
             shutil.rmtree(scratch, ignore_errors=True)
             tmp = out + ".tmp"
-            env = {"VERIF_TIER": tier, "VERIF_SEED": str(seed), "CP_NRAND": str(nrand(tier)), "CP_PAR": os.environ.get("CP_PAR", "20")}
+            env = {"VERIF_TIER": tier, "VERIF_SEED": str(seed), "CP_NRAND": str(nrand(tier)), "CP_PAR": os.environ.get("CP_PAR", "20" if tier == "thorough" else "40")}
             rc, o, dt = vlib.sh(["timeout", "2400", ctx.bin("client_proc"), "run", plugin, tmp, scratch], env=env, timeout=2500)
             ctx.log(f"client_proc[{tier}] run -> rc={rc} in {dt:.1f}s")
             shutil.rmtree(scratch, ignore_errors=True)
@@ -185,7 +214,8 @@ def hist(s):
 ADD_CLASS = {0: "accept", 1: "signature of another key", 2: "undecodable signature", 3: "subscription error (7)", 4: "other API error",
              5: "non-JSON", 6: "JSON of another shape", 7: "empty body", 8: "1 MB body", 9: "connection reset", 10: "right keys, wrong types"}
 REG_CLASS = {0: "good receipt", 1: "signature of another key", 2: "not extending (same expiry)", 3: "non-JSON", 4: "API error",
-             5: "not extending (later expiry, no more slots)", 6: "not extending (more slots, same expiry)"}
+             5: "not extending (later expiry, no more slots)", 6: "not extending (more slots, same expiry)",
+             7: "valid extending receipt of ANOTHER user"}
 
 
 def run_property(ctx, pid, targets, rule, assumptions):
